@@ -405,6 +405,17 @@ def sessions_are_separate(ctx):
 
 
 def run(ctx):
+    # an input whose last statement is refused for its depth has assigned its earlier statements at most once (whether
+    # the stack gives out in the parser, before anything ran, or in the evaluator is C06's business)
+    _ones = " + 1" * 1200
+    _one_of = lambda *vs: (lambda o: o.get("status") == 0 and o.get("value") in vs)
+    C.expect_sessions(ctx["report"], ctx["rundir"], "C14",
+                      [(["w = 8", "w = w / 2; w" + _ones, "w"], _one_of("I:4", "I:8"), "a variable halved at most once by an input whose last statement is refused"),
+                       (["n = 0", "n = n + 1; n" + _ones, "n = n + 1; n" + _ones, "n"], _one_of("I:2", "I:1", "I:0"), "a counter stepped at most once by each of two such inputs"),
+                       (["a = {1}", "a = {size(a), a}; 0" + _ones, "a"], _one_of("A:[I:1;A:[I:1]]", "A:[I:1]"), "an array rebuilt at most once by such an input"),
+                       (["w = 8", "w = w / 2; w" + _ones], (lambda o: (o.get("status") == 1 and not o.get("escaped")) or o.get("value") == "I:1204"), "the refused input itself"),
+                       (["w = 8", "w = w / 2; w + 1", "w"], "I:4", "a variable halved once by an ordinary input")],
+                      kind="refused-tail")
     sessions_are_separate(ctx)
     C.config_matrix(ctx["report"], ctx["rundir"], "C14", ["x = 5; x + 1", "pi = 3; 2 * pi", "x = 5; sqr(x)", "x = 5; y = x; x = 6; y", "e", "true + 1", "m = 2; 3 m", "sin = 2; sin(0)", "x = C(5,2); x*2"])
     # --- coordinator: a reassigned constant is read inside comprehension bodies and conditions as well,
